@@ -3,6 +3,7 @@ package builder
 import (
 	"errors"
 	"fmt"
+	"sort"
 
 	"github.com/mna/pigeon/ast"
 )
@@ -31,9 +32,16 @@ func PrepareGrammar(grammar *ast.Grammar) (bool, error) {
 
 // ComputeNullables evaluates nullable nodes.
 func ComputeNullables(rules map[string]*ast.Rule) {
-	// Compute which rules in a grammar are nullable
-	for _, rule := range rules {
-		rule.NullableVisit(rules)
+	// Compute which rules in a grammar are nullable. The result of a visit
+	// depends on which rules are being visited at that moment, so the rules
+	// are visited in a fixed order to keep the generated parser deterministic.
+	names := make([]string, 0, len(rules))
+	for name := range rules {
+		names = append(names, name)
+	}
+	sort.Strings(names)
+	for _, name := range names {
+		rules[name].NullableVisit(rules)
 	}
 }
 
